@@ -723,11 +723,12 @@ class GetClearModbusPlusRequest(DiagnosticStatusSimpleRequest):
         Func_code (1 byte) + Sub function code (2 byte) + Operation (2 byte) + Data (108 bytes)
         :return:
         """
-        if self.message == ModbusPlusOperation.GetStatistics:
-            data = 2 + 108 # byte count(2) + data (54*2)
-        else:
+        if self.message == ModbusPlusOperation.ClearStatistics:
             data = 0
-        return 1 + 2 + 2 + 2+ data
+        else:
+            # the statistics words that execute() returns after the operation word
+            data = 2 * len(_MCB.Plus.encode())
+        return 1 + 2 + 2 + data
 
     def execute(self, *args):
         ''' Execute the diagnostic request on the given device
